@@ -86,7 +86,7 @@ def prove_paths(name, thunk, judge, witness=None, max_paths=4000, allow_raise=()
             if not solver.reachable(p.pc):
                 continue
             _, m, _ = solver.check(p.pc, want_model=True)
-            return Result(name, "refuted", f"raises {exc_text(p)}"[:400], paths=len(paths), witness=witness(m, p) if witness else None)
+            return Result(name, "refuted", f"raises {exc_text(p)}"[:400], paths=len(paths), witness=witness(m, p) if witness else {})
         j = judge(p)
         detail = ""
         if isinstance(j, tuple):
@@ -95,13 +95,21 @@ def prove_paths(name, thunk, judge, witness=None, max_paths=4000, allow_raise=()
         if z3.is_true(goal):
             live += 1
             continue
+        if z3.is_false(goal):
+            # the judge rejects this path outright: it is a counterexample unless the path condition is provably contradictory
+            if not solver.reachable(p.pc):
+                continue
+            _, m, _ = solver.check(p.pc, want_model=True)
+            if m is None:
+                _, m, _ = solver.check(p.pc, want_model=True, use_axioms=False)
+            return Result(name, "refuted", (detail or f"postcondition fails on path {p!r}")[:400], paths=len(paths), witness=(witness(m, p) if witness and m is not None else {}))
         st, m, _ = solver.valid(p.pc, goal)
         if st == "proved":
             live += 1
             continue
         if p.kind == "raise" and not solver.reachable(p.pc):
             continue
-        return Result(name, "refuted" if st == "refuted" else "undecided", (detail or f"postcondition fails on path {p!r}")[:400], paths=len(paths), witness=(witness(m, p) if witness and m is not None else None))
+        return Result(name, "refuted" if st == "refuted" else "undecided", (detail or f"postcondition fails on path {p!r}")[:400], paths=len(paths), witness=(witness(m, p) if witness and m is not None else {}))
     if live < need_paths:
         return Result(name, "undecided", "vacuous: no feasible path reaches the postcondition", paths=len(paths))
     return Result(name, "proved", paths=len(paths))
